@@ -3,6 +3,11 @@
 
   Only property theorems live here; helper lemmas are in `Fca/Lemmas/MinGen.lean`, the meaning of
   "minimum generator" (`Spec.IsGen`, `Spec.IsMinGen`, `Spec.clBase`) in `Fca/Spec/MinGen.lean`.
+
+  Class H7 ("length is not fullness"): `is_min_gen_args_as_sets`, `min_gens_args_as_sets`,
+  `min_gens_full_base_objects`, `min_gens_names_args_as_sets` (formal routine) and
+  `mv_same_extension_as_set`, `mv_gens_same_extension_as_set`, `mv_gens_same_extension_frozenset`
+  (many-valued routine): every index / name argument is read as the SET of its members.
 -/
 import Fca.Model.MinGen
 import Fca.Spec.MinGen
@@ -172,19 +177,25 @@ theorem min_gens_names_unknown_ignored (K : Ctx) (intent bg : List String) (bo :
     `MVContext.get_minimal_generators` returns (i.e. its `while` loop ends within the given fuel and no
     assertion fires), every returned generator `d` has, inside the base objects `bo` (default: all objects),
     the same extension as the intent — both for the library's own `extension_i` and for the plain
-    conjunctive-filter reading of it.  Termination is NOT claimed: the loop has no exit when the extension
-    of the intent is not contained in `bo`, or when `bo` is not listed in ascending order. -/
+    conjunctive-filter reading of it.  For EVERY `ps_to_iterate` (`psIter`: any list of pattern-structure
+    indexes — permuted, with repetitions, a proper subset; `none` = all) and every base object list (any
+    order, repetitions allowed).  Termination is NOT claimed: the loop has no exit when the extension
+    of the intent is not contained in `bo`, when `bo` is not listed in ascending order, or when the pattern
+    structures of `psIter` do not suffice. -/
 theorem mv_gens_same_extension (cols : List MGMV.Col) (n : Nat) (intent : List MGMV.Descr)
-    (baseGen : List MGMV.PGen) (baseObjs : Option (List Nat)) (fuel : Nat) (R : List MGMV.DescrD)
-    (hbo : C01.BaseInRange baseObjs n)
-    (h : MGMV.getMinimalGenerators cols n intent baseGen baseObjs fuel = .ok R) :
+    (baseGen : List MGMV.PGen) (baseObjs : Option (List Nat)) (psIter : Option (List Nat)) (fuel : Nat)
+    (R : List MGMV.DescrD) (hbo : C01.BaseInRange baseObjs n)
+    (h : MGMV.getMinimalGeneratorsPs cols n intent baseGen baseObjs psIter fuel = .ok R) :
     ∀ d ∈ R,
       MGMV.extensionI cols n d (some (baseObjs.getD (List.range n)))
         = MGMV.extensionI cols n (MGMV.intentD intent) (some (baseObjs.getD (List.range n)))
       ∧ MGMV.sameExtension cols intent (baseObjs.getD (List.range n)) d = true := by
   intro d hd
-  unfold MGMV.getMinimalGenerators at h
-  have hgood := MGMV.whileLoop_good _ _ _ _ _ _ _ _ _ _ h (by intro d hd; cases hd) d hd
+  unfold MGMV.getMinimalGeneratorsPs at h
+  simp only at h
+  split at h
+  · cases h
+  have hgood := MGMV.whileLoop_good _ _ _ _ _ _ _ _ _ _ _ h (by intro d hd; cases hd) d hd
   have hbor : ∀ g ∈ baseObjs.getD (List.range n), g < n := by
     cases baseObjs with
     | none => intro g hg; exact List.mem_range.mp hg
@@ -217,6 +228,100 @@ theorem mv_extension_i_conjunctive (cols : List MGMV.Col) (n : Nat) (descr : MGM
     MGMV.extensionI cols n descr base = MGMV.extSpec cols descr (base.getD (List.range n)) :=
   MGMV.extensionI_eq cols n descr base
 
+/-! ### class H7: index / name arguments are read as SETS (repetitions, order, length are irrelevant) -/
+
+/-- **the specification reads `intent`, the base generator and the base objects as sets**: being a minimum
+    generator does not change when any of the three lists is replaced by a list with the same members
+    (repeated entries, another order, another length). -/
+theorem is_min_gen_args_as_sets (t : Table) (intent intent' bg bg' bo bo' S : List Nat)
+    (hI : ∀ a, a ∈ intent ↔ a ∈ intent') (hG : ∀ a, a ∈ bg ↔ a ∈ bg') (hO : ∀ g, g ∈ bo ↔ g ∈ bo') :
+    Spec.IsMinGen t intent bg bo S ↔ Spec.IsMinGen t intent' bg' bo' S := by
+  have key : ∀ S, Spec.IsGen t intent bg bo S ↔ Spec.IsGen t intent' bg' bo' S := by
+    intro S
+    unfold Spec.IsGen
+    rw [clBase_congr2 t (bo := bo) (bo' := bo') (X := S) (Y := S) hO (fun _ => Iff.rfl)]
+    unfold Spec.SameSet
+    constructor
+    · rintro ⟨h1, h2, h3, h4⟩
+      exact ⟨h1, h2, fun a ha => h3 a ((hG a).mpr ha), fun x => (h4 x).trans (hI x)⟩
+    · rintro ⟨h1, h2, h3, h4⟩
+      exact ⟨h1, h2, fun a ha => h3 a ((hG a).mp ha), fun x => (h4 x).trans (hI x).symm⟩
+  unfold Spec.IsMinGen
+  rw [key S]
+  exact and_congr_right fun _ => forall_congr' fun S' => by rw [key S']
+
+/-- **`get_minimal_generators_i` reads its index arguments as sets** (well-formed table, in-range base
+    generator and base objects): replacing `intent` / the base objects by ANY list with the same members
+    (repetitions — in particular a list of length `n_objects` whose member set is a proper subset —, a
+    permutation, an unsorted full range, one entry more or fewer) and the duplicate-free base generator by a
+    permutation of it returns the very same list of generators. -/
+theorem min_gens_args_as_sets (K : Ctx) (hwf : K.table.WF) (intent intent' bg bg' bo bo' : List Nat)
+    (hbg : C01.InRange bg K.nAttributes) (hbgn : bg.Nodup) (hbgn' : bg'.Nodup)
+    (hbo : C01.InRange bo K.nObjects)
+    (hI : ∀ a, a ∈ intent ↔ a ∈ intent') (hG : ∀ a, a ∈ bg ↔ a ∈ bg') (hO : ∀ g, g ∈ bo ↔ g ∈ bo') :
+    K.getMinimalGeneratorsI intent (some bg) (some bo) = K.getMinimalGeneratorsI intent' (some bg') (some bo') :=
+  getMinimalGeneratorsI_congr K hwf intent intent' bg bg' bo bo' hbg hbgn hbgn' hbo hI hG hO
+
+/-- only a base list that CONTAINS every object may stand for "no base objects given": then (and whatever its
+    length, order and repetitions) the answer is the one of `base_objects_i=None`.  (A list of length
+    `n_objects` with a repeated entry is not such a list — see the example below.) -/
+theorem min_gens_full_base_objects (K : Ctx) (hwf : K.table.WF) (intent bg bo : List Nat)
+    (hbg : C01.InRange bg K.nAttributes) (hbgn : bg.Nodup) (hbo : C01.InRange bo K.nObjects)
+    (hfull : ∀ g, g < K.nObjects → g ∈ bo) :
+    K.getMinimalGeneratorsI intent (some bg) (some bo) = K.getMinimalGeneratorsI intent (some bg) none := by
+  rw [min_gens_default_base_objects]
+  exact getMinimalGeneratorsI_congr K hwf intent intent bg bg bo _ hbg hbgn hbgn hbo (fun _ => Iff.rfl)
+    (fun _ => Iff.rfl) (fun g => ⟨fun h => List.mem_range.mpr (hbo g h), fun h => hfull g (List.mem_range.mp h)⟩)
+
+/-- **the by-name entry point reads its name arguments as sets** — unconditionally (any table, any names,
+    duplicated or unknown names included): the translation is by membership tests. -/
+theorem min_gens_names_args_as_sets (K : Ctx) (intent intent' bg bg' bo bo' : List String)
+    (hI : ∀ x, x ∈ intent ↔ x ∈ intent') (hG : ∀ x, x ∈ bg ↔ x ∈ bg') (hO : ∀ x, x ∈ bo ↔ x ∈ bo') :
+    K.getMinimalGenerators intent (some bg) (some bo) = K.getMinimalGenerators intent' (some bg') (some bo')
+    ∧ K.getMinimalGenerators intent (some bg) none = K.getMinimalGenerators intent' (some bg') none := by
+  unfold Ctx.getMinimalGenerators
+  simp only
+  rw [idxOfNamesIn_congr K.attrNames hI, idxOfNamesIn_congr K.attrNames hG, idxOfNamesIn_congr K.objNames hO]
+  exact ⟨rfl, rfl⟩
+
+/-- **the many-valued acceptance test reads the base objects as a set**: "generator `d` has the same
+    extension as the intent inside the base objects" means that `d` and the intent agree on every base
+    object, so the verdict is the same for every list with the same members. -/
+theorem mv_same_extension_as_set (cols : List MGMV.Col) (intent : List MGMV.Descr) (bo bo' : List Nat)
+    (d : MGMV.DescrD) (h : ∀ g, g ∈ bo ↔ g ∈ bo') :
+    (MGMV.sameExtension cols intent bo d = true ↔
+      ∀ g ∈ bo, MGMV.covers cols d g = MGMV.covers cols (MGMV.intentD intent) g)
+    ∧ MGMV.sameExtension cols intent bo d = MGMV.sameExtension cols intent bo' d := by
+  refine ⟨MGMV.sameExtension_iff cols intent bo d, ?_⟩
+  rw [Bool.eq_iff_iff, MGMV.sameExtension_iff, MGMV.sameExtension_iff]
+  exact ⟨fun H g hg => H g ((h g).mpr hg), fun H g hg => H g ((h g).mp hg)⟩
+
+/-- **many-valued search, base objects as a set.**  If the search ran on the list `run` (what the routine
+    makes of the caller's base objects: the list itself on the numpy branch, an iteration order of
+    `frozenset(bo)` on the branch without numpy, the ascending duplicate-free index list on the by-name
+    path) and `run` has the members of the caller's `bo`, then every returned generator has the same extension
+    as the intent inside the caller's base object SET — whatever repetitions, order or length `bo` has. -/
+theorem mv_gens_same_extension_as_set (cols : List MGMV.Col) (n : Nat) (intent : List MGMV.Descr)
+    (baseGen : List MGMV.PGen) (bo run : List Nat) (psIter : Option (List Nat)) (fuel : Nat)
+    (R : List MGMV.DescrD) (hrun : C01.InRange run n) (hmem : ∀ g, g ∈ run ↔ g ∈ bo)
+    (h : MGMV.getMinimalGeneratorsPs cols n intent baseGen (some run) psIter fuel = .ok R) :
+    ∀ d ∈ R, MGMV.sameExtension cols intent bo d = true := by
+  intro d hd
+  have h1 := (mv_gens_same_extension cols n intent baseGen (some run) psIter fuel R
+    (by intro bs hbs; cases hbs; exact hrun) h d hd).2
+  simp only [Option.getD_some] at h1
+  rw [← (mv_same_extension_as_set cols intent run bo d hmem).2]
+  exact h1
+
+/-- an iteration order of `frozenset(bo)` (branch without numpy) has the members of `bo` -/
+theorem mv_gens_same_extension_frozenset (cols : List MGMV.Col) (n : Nat) (intent : List MGMV.Descr)
+    (baseGen : List MGMV.PGen) (bo ord : List Nat) (psIter : Option (List Nat)) (fuel : Nat)
+    (R : List MGMV.DescrD) (hbo : C01.InRange bo n) (hord : MGMV.IsFrozensetOrder bo ord)
+    (h : MGMV.getMinimalGeneratorsPs cols n intent baseGen (some ord) psIter fuel = .ok R) :
+    ∀ d ∈ R, MGMV.sameExtension cols intent bo d = true :=
+  mv_gens_same_extension_as_set cols n intent baseGen bo ord psIter fuel R
+    (fun g hg => hbo g ((hord.2 g).mp hg)) hord.2 h
+
 /-! ### non-vacuity: the hypotheses are met by a concrete, non-trivial context -/
 
 private def exK : Ctx :=
@@ -248,5 +353,38 @@ example : MGMV.getMinimalGenerators [[(1, 1), (2, 2), (3, 3)]] 3 [.iv (.fin 2) (
     exhaust any fuel (here 5 rounds) -/
 example : MGMV.getMinimalGenerators [[(1, 1), (2, 2), (3, 3)]] 3 [.iv (.fin 2) (.fin 3)] [] (some [0, 1]) 5
     = .error .OutOfFuel := MGMV.mvIs_eq (by decide +kernel)
+
+/-- H7 non-vacuity: in the 3-object context `exK` the base list `[2, 2, 1]` has length `n_objects` but denotes
+    `{1, 2}`; it is answered like `[1, 2]` (and like `[2, 1]`, `[1, 2, 2, 1]`) and NOT like `None` / `[0, 1, 2]`;
+    a permuted / repeated intent and a permuted base generator change nothing. -/
+example : [2, 2, 1].length = exK.nObjects
+    ∧ exK.getMinimalGeneratorsI [1] (some []) (some [2, 2, 1]) = .ok [[]]
+    ∧ exK.getMinimalGeneratorsI [1] (some []) (some [1, 2]) = .ok [[]]
+    ∧ exK.getMinimalGeneratorsI [1] (some []) (some [1, 2, 2, 1]) = .ok [[]]
+    ∧ exK.getMinimalGeneratorsI [1] (some []) none = .ok [[1]]
+    ∧ exK.getMinimalGeneratorsI [1] (some []) (some [2, 0, 1]) = .ok [[1]]
+    ∧ exK.getMinimalGeneratorsI [1, 0, 1] (some [1, 0]) (some [1, 1, 1]) = .ok [[0, 1]]
+    ∧ exK.getMinimalGeneratorsI [0, 1] (some [0, 1]) (some [1]) = .ok [[0, 1]]
+    ∧ exK.getMinimalGenerators ["b", "b", "b"] (some []) (some ["g2", "g2", "g1"]) = .ok [[]]
+    ∧ exK.getMinimalGenerators ["b"] (some []) (some ["g1", "g2"]) = .ok [[]]
+    ∧ exK.getMinimalGenerators ["b"] (some []) none = .ok [["b"]] := by
+  refine ⟨rfl, by rfl, by rfl, by rfl, by rfl, by rfl, by rfl, by rfl, by rfl, by rfl, by rfl⟩
+
+/-- H7 non-vacuity (many-valued): 3 objects `1, 2, 3`, intent `[2, 3]` (extension `{1, 2}`); the base list
+    `[0, 1, 2, 0]` (one longer than the context, object 0 repeated) and `ps_to_iterate = [0, 0]` are answered;
+    a base list that lists the extension out of order (`[2, 1]`) exhausts any fuel (the real loop does not end);
+    a pattern-structure index outside the intent raises `KeyError`. -/
+example : MGMV.getMinimalGeneratorsPs [[(1, 1), (2, 2), (3, 3)]] 3 [.iv (.fin 2) (.fin 3)] [] (some [0, 1, 2, 0])
+      (some [0, 0]) 3 = .ok [[(0, .iv (.fin 2) .pinf)]]
+    ∧ MGMV.getMinimalGeneratorsPs [[(1, 1), (2, 2), (3, 3)]] 3 [.iv (.fin 2) (.fin 3)] [] (some [2, 1]) none 4
+      = .error .OutOfFuel
+    ∧ MGMV.getMinimalGeneratorsPs [[(1, 1), (2, 2), (3, 3)]] 3 [.iv (.fin 2) (.fin 3)] [] none (some [1]) 4
+      = .error .KeyError
+    ∧ MGMV.IsFrozensetOrder [2, 1, 1, 2] [1, 2]
+    ∧ MGMV.sameExtension [[(1, 1), (2, 2), (3, 3)]] [.iv (.fin 2) (.fin 3)] [2, 1, 1, 2] [(0, .iv (.fin 2) .pinf)] = true
+    ∧ MGMV.sameExtension [[(1, 1), (2, 2), (3, 3)]] [.iv (.fin 2) (.fin 3)] [0, 0, 1] [(0, .iv .ninf (.fin 3))] = false := by
+  refine ⟨MGMV.mvIs_eq (by decide +kernel), MGMV.mvIs_eq (by decide +kernel), MGMV.mvIs_eq (by decide +kernel),
+    ⟨by decide, ?_⟩, by decide +kernel, by decide +kernel⟩
+  intro g; simp only [List.mem_cons, List.not_mem_nil, or_false]; omega
 
 end Fca.C18
